@@ -44,7 +44,9 @@ Section Survive.
       (forall a c f, In (a, c, f) (te_dec te) ->
          exists x, dec_arg cx c (vint f v) = Ok x /\
                    (enc_arg cx' c x = Ok (vint f v') \/ (c = CRaw /\ vint f v' = vint f v))) /\
-      (forall f, In f fields -> f <> "_flags" -> expected_src s f = EZero -> vint f v' = 0).
+      (forall f, In f fields -> f <> "_flags" -> expected_src s f = EZero -> vint f v' = 0) /\
+      (forall x, In x (te_dec te) <-> In x (se_args s)) /\
+      (exists r', v' = rec_val fields r').
   Proof.
     intros Hd He Hsmall. unfold decode_entry_of in Hd. cbv zeta in Hd.
     destruct (enum_has enum (vint idf v)) eqn:Hen; cbn [negb] in Hd; [|discriminate].
@@ -66,7 +68,7 @@ Section Survive.
     assert (forall f, In f fields -> f <> "_flags" -> forall n, rec_get f r = Ok n -> vint f (rec_val fields r') = n) as Hfield.
     { intros f Hinf Hne n Hn. rewrite vint_rec_val by assumption. unfold r'.
       rewrite rec_get_map_flags by assumption. rewrite Hn. reflexivity. }
-    exists te, s. split; [exact Hf|]. split; [assumption|]. split; [congruence|]. split; [|split; [|split]].
+    exists te, s. split; [exact Hf|]. split; [assumption|]. split; [congruence|]. split; [|split; [|split; [|split; [|split]]]].
     - destruct Hidf as [Hi1 Hi2]. apply Hfield; [assumption|assumption|].
       pose proof (Henc idf Hi1) as E. rewrite Hown in E. rewrite E. congruence.
     - rewrite vint_rec_val by assumption. unfold r'.
@@ -98,6 +100,8 @@ Section Survive.
         cbn [dec_arg] in Hx. inversion Hx; subst x. unfold wav_duration in Hd. rewrite Hget in Hd. inversion Hd. reflexivity.
     - intros f Hinf Hne Hz. apply Hfield; [assumption|assumption|].
       pose proof (Henc f Hinf) as E. rewrite Hz in E. exact E.
+    - exact Hdec.
+    - exists r'. reflexivity.
   Qed.
 End Survive.
 
